@@ -1,0 +1,210 @@
+//go:build verif
+
+// Verification contracts for package types (comment-only; compiled only with -tags verif).
+// Read by /verif/cmd/gvc; see /verif/DESIGN.md for the contract language.
+
+package types
+
+// ---------------------------------------------------------------------------
+// ghost trace events
+
+//@ event TimerStart(Ref)
+//@ event TimerStop(Ref)
+//@ event Rollback(Ref)
+
+// The rollback timer: Start spawns the timer goroutine (not executed by the verifier), Stop closes the
+// done channel. Their sequential effect is modelled by ghost events; the bodies are not verified.
+//@ func (*TransactionCancelTimer).Stop
+//@   trusted sequential abstraction of the timer goroutine protocol (schedules are property C16, not applicable)
+//@   requires t != nil
+//@   modifies nothing
+//@   emits TimerStop(t)
+
+//@ func (*TransactionCancelTimer).Start
+//@   trusted sequential abstraction of the timer goroutine protocol (schedules are property C16, not applicable)
+//@   requires t != nil
+//@   modifies t.done
+//@   emits TimerStart(t) if t.done == nil
+//@   ensures already_started: old(t.done) != nil ==> result != nil && t.done == old(t.done)
+//@   ensures started: old(t.done) == nil ==> result == nil && t.done != nil
+
+//@ iface RollbackInterface.TransactionRollback
+//@   params ctx transaction dryRun
+//@   emits Rollback(transaction)
+
+// ---------------------------------------------------------------------------
+// data structure invariants
+
+// every intent map is keyed by the intent's own name and holds no nil entries
+//@ pred inv_intentMap(m) = m != nil && allstr(k, present(m, k) ==> m[k] != nil && m[k].name == k)
+//@ pred inv_Transaction(t) = t != nil && inv_intentMap(t.newIntents) && inv_intentMap(t.oldIntents) && t.newIntents != t.oldIntents
+
+// ---------------------------------------------------------------------------
+// TransactionIntent  (C01 C02 C05: the priority and content of an intent are carried unchanged)
+
+//@ func NewTransactionIntent
+//@   props C01 C02 C05
+//@   modifies nothing
+//@   ensures carries_priority: result != nil && fresh(result) && result.name == name && result.priority == priority
+//@   ensures starts_empty: !result.delete && !result.onlyIntended && result.updates == nil
+
+//@ func (*TransactionIntent).AddUpdates
+//@   props C01 C02 C05
+//@   requires ti != nil
+//@   modifies ti.updates, allelems(*cache.Update)
+//@   ensures appended: len(ti.updates) == old(len(ti.updates)) + len(u)
+//@   ensures keeps_prefix: forall(i, 0, old(len(ti.updates)), ti.updates[i] == old(ti.updates[i]))
+//@   ensures adds_all_in_order: forall(i, 0, len(u), ti.updates[old(len(ti.updates)) + i] == old(u[i]))
+//@   ensures first_fill_allocates: old(ti.updates) == nil ==> unchanged(allelems(*cache.Update)) && (len(u) > 0 ==> fresh(ti.updates))
+
+//@ func (*TransactionIntent).SetDeleteFlag
+//@   props C01 C02
+//@   requires ti != nil
+//@   modifies ti.delete
+//@   ensures ti.delete
+
+//@ func (*TransactionIntent).SetDeleteOnlyIntendedFlag
+//@   props C01 C02
+//@   requires ti != nil
+//@   modifies ti.delete, ti.onlyIntended
+//@   ensures ti.delete && ti.onlyIntended
+
+//@ func (*TransactionIntent).GetPriority
+//@   props C01 C02 C05
+//@   requires ti != nil
+//@   modifies nothing
+//@   ensures result == ti.priority
+
+//@ func (*TransactionIntent).GetOnlyIntended
+//@   props C01 C02
+//@   requires ti != nil
+//@   modifies nothing
+//@   ensures result == ti.onlyIntended
+
+// ---------------------------------------------------------------------------
+// Transaction  (C05: the rollback transaction re-submits exactly the stored old versions)
+
+//@ func (*Transaction).AddTransactionIntent
+//@   props C05
+//@   requires inv_Transaction(t) && ti != nil
+//@   requires known_type: tit == TransactionIntentNew || tit == TransactionIntentOld
+//@   let m = ite(tit == TransactionIntentNew, t.newIntents, t.oldIntents)
+//@   modifies mapof(m)
+//@   ensures added: !old(present(m, ti.name)) ==> result == nil && present(m, ti.name) && m[ti.name] == ti
+//@   ensures duplicate_refused: old(present(m, ti.name)) ==> result != nil && m[ti.name] == old(m[ti.name])
+//@   ensures others_untouched: allstr(k, k != ti.name ==> present(m, k) == old(present(m, k)) && m[k] == old(m[k]))
+
+//@ func (*Transaction).AddIntentContent
+//@   props C05 C02
+//@   requires inv_Transaction(t)
+//@   requires known_type: tit == TransactionIntentNew || tit == TransactionIntentOld
+//@   let m = ite(tit == TransactionIntentNew, t.newIntents, t.oldIntents)
+//@   modifies mapof(m)
+//@   ensures snapshot: !old(present(m, name)) ==> result == nil && present(m, name) && m[name] != nil && fresh(m[name]) &&
+//@            m[name].name == name && m[name].priority == priority && !m[name].delete && !m[name].onlyIntended &&
+//@            len(m[name].updates) == len(content) && forall(i, 0, len(content), m[name].updates[i] == old(content[i]))
+//@   ensures duplicate_refused: old(present(m, name)) ==> result != nil && m[name] == old(m[name])
+//@   ensures others_untouched: allstr(k, k != name ==> present(m, k) == old(present(m, k)) && m[k] == old(m[k]))
+
+//@ func (*Transaction).GetRollbackTransaction
+//@   props C05
+//@   requires inv_Transaction(t) && t.timer != nil
+//@   let n0 = ntrace()
+//@   modifies trace
+//@   ensures stops_timer: ntrace() == n0 + 1 && emitted(n0) == TimerStop(t.timer)
+//@   ensures is_rollback: result != nil && fresh(result) && result.isRollback && result.timer == nil &&
+//@            result.transactionManager == t.transactionManager
+//@   ensures resubmits_old_versions: result.newIntents != nil && allstr(k,
+//@            present(result.newIntents, k) == present(t.oldIntents, k) &&
+//@            (present(t.oldIntents, k) ==> result.newIntents[k] == t.oldIntents[k]))
+//@   ensures old_versions_untouched: allstr(k, present(t.oldIntents, k) == old(present(t.oldIntents, k)) && t.oldIntents[k] == old(t.oldIntents[k]))
+//@   loop 0 invariant tr != nil && fresh(tr) && tr.newIntents != nil && fresh(tr.newIntents) && tr.oldIntents != nil && fresh(tr.oldIntents) && tr.newIntents != tr.oldIntents
+//@   loop 0 invariant tr.timer == nil && tr.transactionManager == t.transactionManager && !tr.isRollback
+//@   loop 0 invariant ntrace() == n0 + 1 && emitted(n0) == TimerStop(t.timer)
+//@   loop 0 invariant inv_Transaction(t) && $map == t.oldIntents
+//@   loop 0 invariant allstr(k, present(t.oldIntents, k) == old(present(t.oldIntents, k)) && t.oldIntents[k] == old(t.oldIntents[k]))
+//@   loop 0 invariant allstr(k, $visited[k] ==> present(t.oldIntents, k))
+//@   loop 0 invariant allstr(k, present(tr.newIntents, k) == $visited[k])
+//@   loop 0 invariant allstr(k, $visited[k] ==> tr.newIntents[k] == t.oldIntents[k])
+//@   loop 0 invariant allstr(k, !present(tr.oldIntents, k))
+//@   loop 0 invariant unchanged(allmaps(map[string]*TransactionIntent))
+
+//@ func (*Transaction).Confirm
+//@   props C06
+//@   requires t != nil
+//@   let n0 = ntrace()
+//@   modifies trace
+//@   ensures no_timer: t.timer == nil ==> result != nil && ntrace() == n0
+//@   ensures stops_timer: t.timer != nil ==> result == nil && ntrace() == n0 + 1 && emitted(n0) == TimerStop(t.timer)
+
+//@ func (*Transaction).StartRollbackTimer
+//@   props C06 C05
+//@   requires t != nil
+//@   let n0 = ntrace()
+//@   modifies trace, TransactionCancelTimer.done
+//@   ensures no_timer: t.timer == nil ==> result == nil && ntrace() == n0
+//@   ensures starts: t.timer != nil && old(t.timer.done) == nil ==> result == nil && ntrace() == n0 + 1 && emitted(n0) == TimerStart(t.timer)
+//@   ensures not_twice: t.timer != nil && old(t.timer.done) != nil ==> result != nil && ntrace() == n0
+
+// ---------------------------------------------------------------------------
+// TransactionManager  (C06: exclusive, id-scoped; C05: cancel rolls back exactly once)
+
+// between API calls an open transaction always carries its rollback timer
+//@ pred inv_TM(t) = t != nil && t.rollbacker != nil && (t.transaction != nil ==> inv_Transaction(t.transaction) && t.transaction.timer != nil)
+
+//@ func (*TransactionManager).GetTransaction
+//@   props C06
+//@   requires t != nil
+//@   modifies nothing
+//@   ensures none: t.transaction == nil ==> r0 == nil && r1 != nil
+//@   ensures wrong_id: t.transaction != nil && t.transaction.transactionId != id ==> r0 == nil && r1 != nil
+//@   ensures right_id: t.transaction != nil && t.transaction.transactionId == id ==> r0 == t.transaction && r1 == nil
+
+//@ func (*TransactionManager).CleanupTransaction
+//@   props C06
+//@   requires t != nil
+//@   modifies t.transaction
+//@   ensures wrong_id_no_effect: old(t.transaction) == nil || old(t.transaction).transactionId != id ==> result != nil && t.transaction == old(t.transaction)
+//@   ensures right_id_clears: old(t.transaction) != nil && old(t.transaction).transactionId == id ==> result == nil && t.transaction == nil
+
+//@ func (*TransactionManager).RegisterTransaction
+//@   props C06
+//@   requires t != nil && trans != nil
+//@   requires package_initialised: ErrTransactionOngoing != nil
+//@   modifies t.transaction
+//@   ensures exclusive: old(t.transaction) != nil ==> r0 == nil && r1 != nil && t.transaction == old(t.transaction)
+//@   ensures registers: old(t.transaction) == nil ==> r0 != nil && fresh(r0) && r1 == nil && t.transaction == trans
+
+//@ func (*TransactionManager).Confirm
+//@   props C06
+//@   requires inv_TM(t)
+//@   let n0 = ntrace()
+//@   modifies t.transaction, trace
+//@   ensures no_transaction: old(t.transaction) == nil ==> result != nil && ntrace() == n0
+//@   ensures wrong_id_no_effect: old(t.transaction) != nil && old(t.transaction).transactionId != id ==>
+//@            result != nil && t.transaction == old(t.transaction) && ntrace() == n0
+//@   ensures right_id_confirms: old(t.transaction) != nil && old(t.transaction).transactionId == id ==>
+//@            result == nil && t.transaction == nil && ntrace() == n0 + 1 && emitted(n0) == TimerStop(old(t.transaction).timer)
+
+//@ func (*TransactionManager).Cancel
+//@   props C06 C05
+//@   requires inv_TM(t)
+//@   let n0 = ntrace()
+//@   modifies t.transaction, trace
+//@   ensures no_transaction: old(t.transaction) == nil ==> result != nil && ntrace() == n0
+//@   ensures wrong_id_no_effect: old(t.transaction) != nil && old(t.transaction).transactionId != id ==>
+//@            result != nil && t.transaction == old(t.transaction) && ntrace() == n0
+//@   ensures rolls_back_once [C05 C06]: old(t.transaction) != nil && old(t.transaction).transactionId == id ==>
+//@            ntrace() == n0 + 2 && emitted(n0) == TimerStop(old(t.transaction).timer) &&
+//@            exref(rb, Transaction, emitted(n0+1) == Rollback(rb) && fresh(rb) && rb.isRollback && rb.newIntents != nil &&
+//@               allstr(k, present(rb.newIntents, k) == present(old(t.transaction).oldIntents, k) &&
+//@                         (present(rb.newIntents, k) ==> rb.newIntents[k] == old(t.transaction).oldIntents[k])))
+//@   ensures slot_follows_rollback_result [C05 C06]: old(t.transaction) != nil && old(t.transaction).transactionId == id ==>
+//@            (result == nil ==> t.transaction == nil) && (result != nil ==> t.transaction == old(t.transaction))
+
+//@ func (*TransactionManager).Rollback
+//@   props C05 C06
+//@   requires t != nil && t.rollbacker != nil
+//@   let n0 = ntrace()
+//@   modifies t.transaction, trace
+//@   ensures one_rollback_slot_cleared: ntrace() == n0 + 1 && emitted(n0) == Rollback(trans) && t.transaction == nil
